@@ -30,6 +30,9 @@ EXPLANATION += (' ' + 'PASS/pitch-chain: def-use chain in transpose_chord_symbol
 TRUSTED = ['protobuf copy semantics', 'semitone distances between natural letters (oracle)']
 NOT_DECIDED = ['that transposing arbitrary chord spellings is a homomorphism on pitch-class sets (values)']
 ASSUMPTIONS = []
+# rules whose verdict does not depend on how the statements are arranged (semantic analyses); all other rules are shape rules:
+# when one of those fails in a function that was restructured relative to reference/signatures.json the verdict is "cannot decide"
+ROBUST = ('OWN/write', 'OWN/return', 'TAB/steps-midi', 'TAB/steps-above', 'FRAME')
 FLOORS = {'OPERAND': 4, 'DRUM': 3, 'FRAME': 1, 'TAB': 7, 'PASS': 8, 'SEQ': 6, 'OWN': 10}
 
 ORACLE_MIDI = {'C': 0, 'D': 2, 'E': 4, 'F': 5, 'G': 7, 'A': 9, 'B': 11}
